@@ -158,6 +158,15 @@ def corpus():
     s = cfg(0, 2, 100, 2, 1, 2, 0, 50, 1, 2, 10, 1, 1, 6)
     s += [8, 0, 0, 5, 0, 0, 1, 0, 0, 1, 1, 0, 3, 9, 0, 1, 2, 0, 3, 1, 0, 1, 3, 0, 4, 3, 0, 1, 3, 0]
     out.append(s)
+    # slow state-transition listener (first field + 8, driver-only): wait - 1 units pass inside the transition;
+    # calls 2 and 29 units after the breaker was observed open are still shielded, the one at 30 is the trial
+    for fb in (0, 1):
+        for us in (0, 1, 2):
+            s = cfg(0, 2, 100, 2, 1, 2, 0, 50, 1, 2, 30, 1, fb, 6, us=us)
+            s[0] |= 8
+            s += seq_call(0, 2, 0) + seq_call(1, 2, 0) + [3, 2, 0, 1, 2, 0, 3, 27, 0, 1, 3, 0, 3, 1, 0, 1, 4, 0, 4, 4, 0, 1, 4, 0,
+                                                          5, 0, 0, 3, 29, 0, 1, 5, 0]
+            out.append(s)
     return out
 
 
@@ -545,6 +554,21 @@ def multi_phase_burst(rng):
     return s
 
 
+def slow_listener(rng):
+    """bit 3 of the first field (driver-only): a state-transition listener during which wait_open - 1 units of time
+    pass. Only on count-based scripts without slow-call detection (see harness/src/bin/c03.rs): there the unchanged
+    code cannot tell the difference, and the model (which ignores the bit) is compared as usual."""
+    for _ in range(50):
+        f = rng.choice([us_wait_boundary, us_wait_boundary, random_seq_history, half_open_burst, random_concurrent, multi_phase_burst])
+        s = list(f(rng))
+        if s[0] & 1 == 0 and s[6] == 0 and 2 <= s[10] < 10 ** 15:
+            s[0] |= 8
+            return s
+    s = cfg(0, 2, 100, 2, 1, 2, 0, 50, 1, 2, 30, 1, 0, 4)
+    s[0] |= 8
+    return s + seq_call(0, 2, 0) + seq_call(1, 2, 0) + [3, 2, 0, 1, 2, 0, 3, 27, 0, 1, 3, 0]
+
+
 def shrink(s):
     head, body = s[:NCFG], s[NCFG:]
     k = len(body) // 3
@@ -580,6 +604,8 @@ def classify(s, t):
         out.append("unit_us")
     if (s[0] >> 2) & 1:
         out.append("unit_ns")
+    if (s[0] >> 3) & 1:
+        out.append("slow_listener")
     body = s[NCFG:]
     if any(body[i] in (15, 16, 17) for i in range(0, len(body) - len(body) % 3, 3)):
         out.append("operator_via_service_handle")
